@@ -1,59 +1,57 @@
 import Proofs.Lemmas.HeapSim
 /-!
-C06 helper lemmas, part 6: the simulation step — every statement that writes at a
-root keeps `NoUnintendedSharing` and denotes the spec's step.
+C06 helper lemmas: the simulation step — **every** statement keeps `NoSharing` and denotes
+the spec's step.
 -/
 namespace Proofs.Heap
 open Model.Heap
 open Spec.Val (abs eraseVal eraseL Tree Entry)
 
-/-- the claim for one statement -/
-def SimOpt (s : St) (op : Op) : Prop :=
-  match stepOpt .fixed s op with
-  | some s' => Inv s' ∧ Spec.Val.stepOpt (abs s) op = some (abs s')
-  | none => Spec.Val.stepOpt (abs s) op = none
+/-- assigning a scalar to a variable -/
+theorem Inv.setVarScalar {s : St} (hinv : Inv s) (x : Nat) (sc : Scalar) : Inv (s.setVar x (.sc sc)) := by
+  simp only [St.setVar]
+  cases hc : s.names[x]? with
+  | none => exact hinv
+  | some c =>
+    have hlt := hinv.wf x c hc
+    have hold : holder? s (.v c) = some s.vcells[c] := by simp [holder?, hlt]
+    exact Inv.replace hinv (.v c) _ (.sc sc) s.next (fun _ => 0) hold (Nat.le_refl _)
+      (fun i => by simp [vcnt]) (fun i => ⟨by omega, fun h => by omega⟩)
 
 theorem sim_setVar {s : St} (hinv : Inv s) (x : Nat) (r : RV) : SimOpt s (.setVar x r) := by
   unfold SimOpt
-  rcases evalRV_cases s r with ⟨h1, h2⟩ | ⟨v, n1, h1, h2, hle, hin⟩
+  rcases evalRV_cases s r with ⟨h1, h2⟩ | ⟨v, n1, h1, h2, hle⟩
   · simp [stepOpt, h1, Spec.Val.stepOpt, h2]
-  · obtain ⟨ce, cn, ci, cr⟩ := cloneOnStore_spec v n1
-    obtain ⟨ca, cb, cc⟩ := clone_aids hinv v n1 hle hin
+  · obtain ⟨ce, cn, cf⟩ := cloneOnStore_spec v n1
     have hstep : stepOpt .fixed s (.setVar x r) =
-        some { (({ s with next := n1 } : St).setVar x (cloneOnStore v n1).1) with next := (cloneOnStore v n1).2 } := by
+        some { (({ s with next := n1 } : St).setVar x (cloneOnStore .fixed v n1).1) with next := (cloneOnStore .fixed v n1).2 } := by
       simp [stepOpt, h1, show Cfg.fixed.copyCallResult = true from rfl]
     rw [hstep]
     refine ⟨?_, ?_⟩
     · cases hc : s.names[x]? with
       | none =>
-        have : ({ s with next := n1 } : St).setVar x (cloneOnStore v n1).1 = { s with next := n1 } := by
+        have : ({ s with next := n1 } : St).setVar x (cloneOnStore .fixed v n1).1 = { s with next := n1 } := by
           simp [St.setVar, hc]
         rw [this]
         exact Inv.next hinv _ (by omega)
       | some c =>
         have hlt := hinv.wf x c hc
         have hold : holder? s (.v c) = some s.vcells[c] := by simp [holder?, hlt]
-        have : ({ (({ s with next := n1 } : St).setVar x (cloneOnStore v n1).1) with next := (cloneOnStore v n1).2 } : St) =
-            { (setHolder s (.v c) (cloneOnStore v n1).1) with next := (cloneOnStore v n1).2 } := by
+        have : ({ (({ s with next := n1 } : St).setVar x (cloneOnStore .fixed v n1).1) with next := (cloneOnStore .fixed v n1).2 } : St) =
+            { (setHolder s (.v c) (cloneOnStore .fixed v n1).1) with next := (cloneOnStore .fixed v n1).2 } := by
           simp [St.setVar, hc, setHolder]
         rw [this]
-        apply Inv.overwrite hinv (.v c) _ _ _ hold (by omega)
-        · intro a k e; exact Or.inr (cc a k e)
-        · intro i hi
-          rcases ca i (innerAids_sub _ i hi) with h | h
-          · exact Or.inl h
-          · exact Or.inr h.1
-        · exact cb
+        exact Inv.replace hinv (.v c) _ _ _ (fun i => vcnt i (cloneOnStore .fixed v n1).1) hold (by omega)
+          (fun i => by omega) (fresh_for hinv _ n1 _ _ cf hle (Nat.le_refl _))
     · simp only [Spec.Val.stepOpt, h2, Option.map_some]
-      show some ((abs s).setVar x (eraseVal v)) = some (abs (({ s with next := n1 } : St).setVar x (cloneOnStore v n1).1))
+      show some ((abs s).setVar x (eraseVal v)) = some (abs (({ s with next := n1 } : St).setVar x (cloneOnStore .fixed v n1).1))
       rw [abs_setVar, ce]; rfl
 
 theorem sim_setProp {s : St} (hinv : Inv s) (x p : Nat) (r : RV) : SimOpt s (.setProp x p r) := by
   unfold SimOpt
-  rcases evalRV_cases s r with ⟨h1, h2⟩ | ⟨v, n1, h1, h2, hle, hin⟩
+  rcases evalRV_cases s r with ⟨h1, h2⟩ | ⟨v, n1, h1, h2, hle⟩
   · simp [stepOpt, h1, Spec.Val.stepOpt, h2]
-  · obtain ⟨ce, cn, ci, cr⟩ := cloneOnStore_spec v n1
-    obtain ⟨ca, cb, cc⟩ := clone_aids hinv v n1 hle hin
+  · obtain ⟨ce, cn, cf⟩ := cloneOnStore_spec v n1
     have hobj : ({ s with next := n1 } : St).varObj? x = s.varObj? x := rfl
     cases hh : s.varObj? x with
     | none => simp [stepOpt, h1, hobj, hh, Spec.Val.stepOpt, h2, abs_varObj?]
@@ -63,105 +61,19 @@ theorem sim_setProp {s : St} (hinv : Inv s) (x p : Nat) (r : RV) : SimOpt s (.se
       | none => simp [stepOpt, h1, hobj, hh, hpv, hold, Spec.Val.stepOpt, h2, abs_varObj?, abs_propVal?]
       | some old =>
         have hstep : stepOpt .fixed s (.setProp x p r) =
-            some { (({ s with next := n1 } : St).setProp h p (cloneOnStore v n1).1) with next := (cloneOnStore v n1).2 } := by
+            some { (({ s with next := n1 } : St).setProp h p (cloneOnStore .fixed v n1).1) with next := (cloneOnStore .fixed v n1).2 } := by
           simp [stepOpt, h1, hobj, hh, hpv, hold]
         rw [hstep]
         refine ⟨?_, ?_⟩
-        · have : ({ (({ s with next := n1 } : St).setProp h p (cloneOnStore v n1).1) with next := (cloneOnStore v n1).2 } : St) =
-              { (setHolder s (.p h p) (cloneOnStore v n1).1) with next := (cloneOnStore v n1).2 } := by
+        · have : ({ (({ s with next := n1 } : St).setProp h p (cloneOnStore .fixed v n1).1) with next := (cloneOnStore .fixed v n1).2 } : St) =
+              { (setHolder s (.p h p) (cloneOnStore .fixed v n1).1) with next := (cloneOnStore .fixed v n1).2 } := by
             rw [setProp_next]; rfl
           rw [this]
-          apply Inv.overwrite hinv (.p h p) old _ _ hold (by omega)
-          · intro a k e; exact Or.inr (cc a k e)
-          · intro i hi
-            rcases ca i (innerAids_sub _ i hi) with h' | h'
-            · exact Or.inl h'
-            · exact Or.inr h'.1
-          · exact cb
+          exact Inv.replace hinv (.p h p) old _ _ (fun i => vcnt i (cloneOnStore .fixed v n1).1) hold (by omega)
+            (fun i => by omega) (fresh_for hinv _ n1 _ _ cf hle (Nat.le_refl _))
         · simp only [Spec.Val.stepOpt, h2, abs_varObj?, hh, abs_propVal?, hold, Option.map_some]
-          show some ((abs s).setProp h p (eraseVal v)) = some (abs (({ s with next := n1 } : St).setProp h p (cloneOnStore v n1).1))
+          show some ((abs s).setProp h p (eraseVal v)) = some (abs (({ s with next := n1 } : St).setProp h p (cloneOnStore .fixed v n1).1))
           rw [abs_setProp, ce]; rfl
-
-theorem sim_setIdx {s : St} (hinv : Inv s) (b : Place) (hb : b.isRoot = true) (k : Option IKey) (r : RV) :
-    SimOpt s (.setIdx b k r) := by
-  unfold SimOpt
-  rcases evalRV_cases s r with ⟨h1, h2⟩ | ⟨v, n1, h1, h2, hle, hin⟩
-  · simp [stepOpt, h1, Spec.Val.stepOpt, h2]
-  · obtain ⟨ce, cn, ci, cr⟩ := cloneOnStore_spec v n1
-    obtain ⟨ca, cb, cc⟩ := clone_aids hinv v n1 hle hin
-    -- at a root place `setIdx` is: copy the value, then `storeAt`
-    have hset : setIdx .fixed b { s with next := n1 } k v =
-        storeAt .fixed { s with next := (cloneOnStore v n1).2 } b k (cloneOnStore v n1).1 := by
-      cases b with
-      | idx b k' => simp [Place.isRoot] at hb
-      | var x => simp [setIdx, Cfg.fixed]
-      | prop x p => simp [setIdx, Cfg.fixed]
-    have hrd : readPlace ({ s with next := (cloneOnStore v n1).2 } : St) b = readPlace s b := readPlace_next s _ b
-    simp only [stepOpt, h1, hset, storeAt, hrd, Spec.Val.stepOpt, h2]
-    cases hr : readPlace s b with
-    | none => simp only; exact onArray_none s b hb _ (by simp [hr])
-    | some w =>
-      cases w with
-      | sc sc => simp only; exact onArray_none s b hb _ (by simp [hr])
-      | arr a kids =>
-        simp only
-        obtain ⟨l', hact, herase⟩ := storeAct_fixed kids k (cloneOnStore v n1).2 (cloneOnStore v n1).1
-        obtain ⟨P, _, hP⟩ := readPlace_root s b hb _ hr
-        have hk : KidsOK s ((cloneOnStore v n1).2 + 1) l' := by
-          apply kidsOK_of_valsFrom P a kids l' (cloneOnStore v n1).1 _ hP (valsFrom_storeAct _ _ _ _ _ hact)
-          intro i hi
-          rcases ca i hi with h | h
-          · exact Or.inl h
-          · exact Or.inr ⟨h.1, by omega⟩
-        have hrw := root_write hinv b hb a kids l' hr ((cloneOnStore v n1).2 + 1) (by omega) hk
-          (fun l => Spec.Val.store l k (eraseVal v)) (by rw [herase, ce])
-        show Inv (writeBack .fixed { (({ s with next := (cloneOnStore v n1).2 } : St).applyAct a
-            (storeAct .fixed kids k (cloneOnStore v n1).2 (cloneOnStore v n1).1)) with next := (cloneOnStore v n1).2 + 1 } b) ∧ _
-        rw [hact]
-        exact hrw
-
-theorem sim_unset {s : St} (hinv : Inv s) (b : Place) (hb : b.isRoot = true) (k : IKey) :
-    SimOpt s (.unset b k) := by
-  unfold SimOpt
-  simp only [stepOpt, unsetAt, Spec.Val.stepOpt]
-  cases hr : readPlace s b with
-  | none => simp only; exact onArray_none s b hb _ (by simp [hr])
-  | some w =>
-    cases w with
-    | sc sc => simp only; exact onArray_none s b hb _ (by simp [hr])
-    | arr a kids =>
-      simp only
-      obtain ⟨P, _, hP⟩ := readPlace_root s b hb _ hr
-      have hk : KidsOK s (s.next + (unsetKey kids k s.next).2) (unsetKey kids k s.next).1 := by
-        apply kidsOK_of_valsFrom P a kids _ (.sc .null) _ hP
-          (valsFrom_of_sub _ _ _ (unsetKey_vals kids k s.next))
-        simp [Val.aids]
-      exact root_write hinv b hb a kids _ hr _ (by omega) hk (fun l => Spec.Val.unsetK l k)
-        (erase_unsetKey kids k s.next)
-
-theorem sim_meth {s : St} (hinv : Inv s) (b : Place) (hb : b.isRoot = true) (m : Meth) :
-    SimOpt s (.meth b m) := by
-  unfold SimOpt
-  simp only [stepOpt, methAt, Spec.Val.stepOpt]
-  cases hr : readPlace s b with
-  | none => simp only; exact onArray_none s b hb _ (by simp [hr])
-  | some w =>
-    cases w with
-    | sc sc => simp only; exact onArray_none s b hb _ (by simp [hr])
-    | arr a kids =>
-      simp only
-      obtain ⟨P, _, hP⟩ := readPlace_root s b hb _ hr
-      have hk : KidsOK s (s.next + 1) (Model.Heap.applyMeth kids m s.next) := by
-        intro i hi
-        obtain ⟨sl, hsl, hm⟩ := (mem_aidsL i _).mp hi
-        rcases applyMeth_vals kids m s.next sl hsl with ⟨sl0, h0, e⟩ | ⟨n, e⟩
-        · left
-          refine ⟨P, _, hP, ?_⟩
-          simp only [innerAids]
-          exact (mem_aidsL i kids).mpr ⟨sl0, h0, by rw [← e]; exact hm⟩
-        · rw [e] at hm; simp [Val.aids] at hm
-      exact root_mutate hinv b hb a kids _ hr _ (by omega) hk (fun l => Spec.Val.applyMeth l m)
-        (erase_applyMeth kids m s.next)
 
 theorem sim_ref {s : St} (hinv : Inv s) (x y : Nat) : SimOpt s (.ref x y) := by
   unfold SimOpt
@@ -174,15 +86,12 @@ theorem sim_ref {s : St} (hinv : Inv s) (x y : Nat) : SimOpt s (.ref x y) := by
     simp only
     by_cases hx : x < s.names.length
     · simp only [hx, if_true]
-      refine ⟨⟨?_, ?_, ?_, ?_⟩, rfl⟩
-      · intro x' c' h'
-        simp only [List.getElem?_set] at h'
-        split at h'
-        · injection h' with e; subst e; exact hinv.wf y c hy
-        · exact hinv.wf x' c' h'
-      · exact hinv.uniq
-      · intro P a k h1 ⟨Q, w, hw, hm⟩; exact hinv.sep P a k h1 ⟨Q, w, hw, hm⟩
-      · exact hinv.bound
+      refine ⟨⟨?_, hinv.uniq, hinv.bound⟩, rfl⟩
+      intro x' c' h'
+      simp only [List.getElem?_set] at h'
+      split at h'
+      · injection h' with e; subst e; exact hinv.wf y c hy
+      · exact hinv.wf x' c' h'
     · simp [hx]
 
 theorem setVar_objs (s : St) (x : Nat) (w : Val) : (s.setVar x w).objs = s.objs := by
@@ -198,12 +107,10 @@ theorem sim_new {s : St} (hinv : Inv s) (x : Nat) : SimOpt s (.new x) := by
   · rw [hcomm]
     apply Inv.setVarScalar
     apply Inv.appendObj hinv _ s.next (Nat.le_refl _)
-    · intro j a k h
-      have := List.mem_of_getElem? h
-      simp [List.mem_replicate] at this
-    · intro j1 j2 a k1 k2 h
-      have := List.mem_of_getElem? h
-      simp [List.mem_replicate] at this
+    intro i
+    have : cntVs i (List.replicate np (Val.sc Scalar.null)) = 0 := wsum_replicate _ _ _ rfl
+    rw [this]
+    exact ⟨by omega, fun h => by omega⟩
   · have hlen : (abs s).objs.length = s.objs.length := by simp [abs]
     rw [hlen]
     congr 1
@@ -223,22 +130,16 @@ theorem sim_clone {s : St} (hinv : Inv s) (x y : Nat) : SimOpt s (.clone x y) :=
     | none => simp
     | some ps =>
       simp only [Option.map_some]
-      obtain ⟨ce, cle, crng, cinj⟩ := cloneProps_spec ps s.next
+      obtain ⟨ce, cle, cfr⟩ := cloneProps_spec ps s.next
       refine ⟨?_, ?_⟩
-      · have hcomm : ({ (({ s with objs := s.objs ++ [(cloneProps ps s.next).1] } : St).setVar x (.sc (.inst s.objs.length))) with
-            next := (cloneProps ps s.next).2 } : St) =
-            ({ s with objs := s.objs ++ [(cloneProps ps s.next).1], next := (cloneProps ps s.next).2 } : St).setVar x
+      · have hcomm : ({ (({ s with objs := s.objs ++ [(cloneProps .fixed ps s.next).1] } : St).setVar x (.sc (.inst s.objs.length))) with
+            next := (cloneProps .fixed ps s.next).2 } : St) =
+            ({ s with objs := s.objs ++ [(cloneProps .fixed ps s.next).1], next := (cloneProps .fixed ps s.next).2 } : St).setVar x
               (.sc (.inst s.objs.length)) := by
           simp only [St.setVar]; cases s.names[x]? <;> rfl
         rw [hcomm]
         apply Inv.setVarScalar
-        apply Inv.appendObj hinv _ _ cle
-        · intro j a k hj
-          obtain ⟨h1, h2, a0, h3⟩ := crng j a k hj
-          refine ⟨h1, h2, ?_⟩
-          intro i hi
-          exact ⟨.p h j, .arr a0 k, by simp [holder?, St.propVal?, hps, h3], by simpa [innerAids] using hi⟩
-        · exact cinj
+        exact Inv.appendObj hinv _ _ cle (fresh_for hinv _ s.next _ _ cfr (Nat.le_refl _) (Nat.le_refl _))
       · have hlen : (abs s).objs.length = s.objs.length := by simp [abs]
         rw [hlen]
         congr 1
@@ -246,20 +147,20 @@ theorem sim_clone {s : St} (hinv : Inv s) (x y : Nat) : SimOpt s (.clone x y) :=
         cases s.names[x]? <;> simp [eraseVal, List.map_set, ce]
 
 /-- **simulation step** -/
-theorem sim_opt {s : St} (hinv : Inv s) (op : Op) (hf : op.flat = true) : SimOpt s op := by
+theorem sim_opt {s : St} (hinv : Inv s) (op : Op) : SimOpt s op := by
   cases op with
   | setVar x r => exact sim_setVar hinv x r
   | setProp x p r => exact sim_setProp hinv x p r
-  | setIdx b k r => exact sim_setIdx hinv b hf k r
-  | unset b k => exact sim_unset hinv b hf k
-  | meth b m => exact sim_meth hinv b hf m
+  | setIdx b k r => exact sim_setIdx hinv b k r
+  | unset b k => exact sim_unset hinv b k
+  | meth b m => exact sim_meth hinv b m
   | new x => exact sim_new hinv x
   | clone x y => exact sim_clone hinv x y
   | ref x y => exact sim_ref hinv x y
 
-theorem step_sim {s : St} (hinv : Inv s) (op : Op) (hf : op.flat = true) :
+theorem step_sim {s : St} (hinv : Inv s) (op : Op) :
     Inv (step .fixed s op) ∧ abs (step .fixed s op) = Spec.Val.step (abs s) op := by
-  have h := sim_opt hinv op hf
+  have h := sim_opt hinv op
   unfold SimOpt at h
   unfold step Spec.Val.step
   cases hs : stepOpt .fixed s op with
@@ -267,35 +168,23 @@ theorem step_sim {s : St} (hinv : Inv s) (op : Op) (hf : op.flat = true) :
   | some s' => simp only [hs] at h; simp [h.2, h.1]
 
 theorem inv_init (nv : Nat) : Inv (init nv) := by
-  refine ⟨?_, ?_, ?_, ?_⟩
+  refine ⟨?_, ?_, ?_⟩
   · intro x c h
     simp only [init, List.length_replicate] at h ⊢
     have := List.getElem?_eq_some_iff.mp h
     obtain ⟨h1, h2⟩ := this
     simp at h1 h2
     omega
-  · intro P Q a k1 k2 h1 _
-    cases P with
-    | v c =>
-      simp only [holder?, init] at h1
-      have := List.mem_of_getElem? h1
-      simp [List.mem_replicate] at this
-    | p h p => simp [holder?, St.propVal?, init] at h1
-  · intro P a k h1 _
-    cases P with
-    | v c =>
-      simp only [holder?, init] at h1
-      have := List.mem_of_getElem? h1
-      simp [List.mem_replicate] at this
-    | p h p => simp [holder?, St.propVal?, init] at h1
-  · intro P w hw i hi
-    cases P with
-    | v c =>
-      simp only [holder?, init] at hw
-      have := List.mem_of_getElem? hw
-      simp [List.mem_replicate] at this
-      rw [this.2] at hi; simp [Val.aids] at hi
-    | p h p => simp [holder?, St.propVal?, init] at hw
+  · intro a
+    have : scnt (init nv) a = 0 := by
+      simp only [scnt, init, cntOs, wsum, cntVs]
+      rw [wsum_replicate (vcnt a) nv (.sc .null) rfl]
+    omega
+  · intro a ha
+    have : scnt (init nv) a = 0 := by
+      simp only [scnt, init, cntOs, wsum, cntVs]
+      rw [wsum_replicate (vcnt a) nv (.sc .null) rfl]
+    omega
 
 theorem abs_init (nv : Nat) : abs (init nv) = Spec.Val.init nv := by
   simp [abs, init, Spec.Val.init, eraseVal]
